@@ -14,6 +14,10 @@ import (
 type Warnings struct {
 	all []string
 
+	// what this evaluation can still spend on the values it produces, and the error it gives once that is used up
+	budget  *int
+	tooLong *types.XError
+
 	// calls of anonymous functions made so far by this evaluation, and how many of them are in progress
 	anonCalls int
 	anonDepth int
@@ -26,6 +30,55 @@ const (
 	maxAnonFunctionDepth = 100
 	maxAnonFunctionCalls = 100000
 )
+
+// The work of an evaluation is not limited by the size of the expression either: an anonymous function can be called
+// 100000 times, and each call can copy a text or walk an array that is as large as those get. So the values that
+// operators and functions are given and the values they return are charged to a budget, at their sizes as text
+// (types.SpendRenderSize), which the work of using or producing them is in proportion to, and every function call is
+// charged what the cheapest ones take. Once the budget is used up everything evaluates to the same error.
+const (
+	maxEvaluationWork = 5000000
+	functionCallWork  = 100
+)
+
+// charges an operand or a result
+func (w *Warnings) spend(v types.XValue) types.XValue {
+	if w.spendWork(0) && types.SpendRenderSize(v, false, w.budget) {
+		return v
+	}
+	return w.evaluationTooLong()
+}
+
+// evaluates the operands of an operator and applies it
+func (w *Warnings) binary(op func(envs.Environment, types.XValue, types.XValue) types.XValue, env envs.Environment, scope *Scope, exp1, exp2 Expression) types.XValue {
+	return w.spend(op(env, w.spend(exp1.Evaluate(env, scope, w)), w.spend(exp2.Evaluate(env, scope, w))))
+}
+
+// charges an argument of a function, which may look at all the properties of an object that has a default
+func (w *Warnings) spendArgument(v types.XValue) types.XValue {
+	if w.spendWork(0) && types.SpendRenderSize(v, true, w.budget) {
+		return v
+	}
+	return w.evaluationTooLong()
+}
+
+func (w *Warnings) spendWork(n int) bool {
+	if w.budget == nil {
+		budget := maxEvaluationWork
+		w.budget = &budget
+	}
+	if *w.budget >= 0 {
+		*w.budget -= n
+	}
+	return *w.budget >= 0
+}
+
+func (w *Warnings) evaluationTooLong() types.XValue {
+	if w.tooLong == nil {
+		w.tooLong = types.NewXErrorf("evaluation takes too long")
+	}
+	return w.tooLong
+}
 
 func (w *Warnings) add(m string) {
 	if !slices.Contains(w.all, m) {
@@ -163,10 +216,18 @@ func (x *FunctionCall) Evaluate(env envs.Environment, scope *Scope, warnings *Wa
 
 	params := make([]types.XValue, len(x.Params))
 	for i := range x.Params {
-		params[i] = x.Params[i].Evaluate(env, scope, warnings)
+		params[i] = warnings.spendArgument(x.Params[i].Evaluate(env, scope, warnings))
 	}
 
-	return asFunction.Call(env, params)
+	work := functionCallWork
+	if extra, found := functions.XWORK[asFunction.Name()]; found {
+		work += extra(env, params)
+	}
+	if !warnings.spendWork(work) {
+		return warnings.evaluationTooLong()
+	}
+
+	return warnings.spend(asFunction.Call(env, params))
 }
 
 func (x *FunctionCall) Visit(v func(Expression)) {
@@ -232,7 +293,7 @@ type Concatenation struct {
 }
 
 func (x *Concatenation) Evaluate(env envs.Environment, scope *Scope, warnings *Warnings) types.XValue {
-	return operators.Concatenate(env, x.Exp1.Evaluate(env, scope, warnings), x.Exp2.Evaluate(env, scope, warnings))
+	return warnings.binary(operators.Concatenate, env, scope, x.Exp1, x.Exp2)
 }
 
 func (x *Concatenation) Visit(v func(Expression)) {
@@ -251,7 +312,7 @@ type Addition struct {
 }
 
 func (x *Addition) Evaluate(env envs.Environment, scope *Scope, warnings *Warnings) types.XValue {
-	return operators.Add(env, x.Exp1.Evaluate(env, scope, warnings), x.Exp2.Evaluate(env, scope, warnings))
+	return warnings.binary(operators.Add, env, scope, x.Exp1, x.Exp2)
 }
 
 func (x *Addition) Visit(v func(Expression)) {
@@ -270,7 +331,7 @@ type Subtraction struct {
 }
 
 func (x *Subtraction) Evaluate(env envs.Environment, scope *Scope, warnings *Warnings) types.XValue {
-	return operators.Subtract(env, x.Exp1.Evaluate(env, scope, warnings), x.Exp2.Evaluate(env, scope, warnings))
+	return warnings.binary(operators.Subtract, env, scope, x.Exp1, x.Exp2)
 }
 
 func (x *Subtraction) Visit(v func(Expression)) {
@@ -289,7 +350,7 @@ type Multiplication struct {
 }
 
 func (x *Multiplication) Evaluate(env envs.Environment, scope *Scope, warnings *Warnings) types.XValue {
-	return operators.Multiply(env, x.Exp1.Evaluate(env, scope, warnings), x.Exp2.Evaluate(env, scope, warnings))
+	return warnings.binary(operators.Multiply, env, scope, x.Exp1, x.Exp2)
 }
 
 func (x *Multiplication) Visit(v func(Expression)) {
@@ -308,7 +369,7 @@ type Division struct {
 }
 
 func (x *Division) Evaluate(env envs.Environment, scope *Scope, warnings *Warnings) types.XValue {
-	return operators.Divide(env, x.Exp1.Evaluate(env, scope, warnings), x.Exp2.Evaluate(env, scope, warnings))
+	return warnings.binary(operators.Divide, env, scope, x.Exp1, x.Exp2)
 }
 
 func (x *Division) Visit(v func(Expression)) {
@@ -327,7 +388,7 @@ type Exponent struct {
 }
 
 func (x *Exponent) Evaluate(env envs.Environment, scope *Scope, warnings *Warnings) types.XValue {
-	return operators.Exponent(env, x.Expression.Evaluate(env, scope, warnings), x.Exponent.Evaluate(env, scope, warnings))
+	return warnings.binary(operators.Exponent, env, scope, x.Expression, x.Exponent)
 }
 
 func (x *Exponent) Visit(v func(Expression)) {
@@ -345,7 +406,7 @@ type Negation struct {
 }
 
 func (x *Negation) Evaluate(env envs.Environment, scope *Scope, warnings *Warnings) types.XValue {
-	return operators.Negate(env, x.Exp.Evaluate(env, scope, warnings))
+	return warnings.spend(operators.Negate(env, warnings.spend(x.Exp.Evaluate(env, scope, warnings))))
 }
 
 func (x *Negation) Visit(v func(Expression)) {
@@ -363,7 +424,7 @@ type Equality struct {
 }
 
 func (x *Equality) Evaluate(env envs.Environment, scope *Scope, warnings *Warnings) types.XValue {
-	return operators.Equal(env, x.Exp1.Evaluate(env, scope, warnings), x.Exp2.Evaluate(env, scope, warnings))
+	return warnings.binary(operators.Equal, env, scope, x.Exp1, x.Exp2)
 }
 
 func (x *Equality) Visit(v func(Expression)) {
@@ -382,7 +443,7 @@ type InEquality struct {
 }
 
 func (x *InEquality) Evaluate(env envs.Environment, scope *Scope, warnings *Warnings) types.XValue {
-	return operators.NotEqual(env, x.Exp1.Evaluate(env, scope, warnings), x.Exp2.Evaluate(env, scope, warnings))
+	return warnings.binary(operators.NotEqual, env, scope, x.Exp1, x.Exp2)
 }
 
 func (x *InEquality) Visit(v func(Expression)) {
@@ -401,7 +462,7 @@ type LessThan struct {
 }
 
 func (x *LessThan) Evaluate(env envs.Environment, scope *Scope, warnings *Warnings) types.XValue {
-	return operators.LessThan(env, x.Exp1.Evaluate(env, scope, warnings), x.Exp2.Evaluate(env, scope, warnings))
+	return warnings.binary(operators.LessThan, env, scope, x.Exp1, x.Exp2)
 }
 
 func (x *LessThan) Visit(v func(Expression)) {
@@ -420,7 +481,7 @@ type LessThanOrEqual struct {
 }
 
 func (x *LessThanOrEqual) Evaluate(env envs.Environment, scope *Scope, warnings *Warnings) types.XValue {
-	return operators.LessThanOrEqual(env, x.Exp1.Evaluate(env, scope, warnings), x.Exp2.Evaluate(env, scope, warnings))
+	return warnings.binary(operators.LessThanOrEqual, env, scope, x.Exp1, x.Exp2)
 }
 
 func (x *LessThanOrEqual) Visit(v func(Expression)) {
@@ -439,7 +500,7 @@ type GreaterThan struct {
 }
 
 func (x *GreaterThan) Evaluate(env envs.Environment, scope *Scope, warnings *Warnings) types.XValue {
-	return operators.GreaterThan(env, x.Exp1.Evaluate(env, scope, warnings), x.Exp2.Evaluate(env, scope, warnings))
+	return warnings.binary(operators.GreaterThan, env, scope, x.Exp1, x.Exp2)
 }
 
 func (x *GreaterThan) Visit(v func(Expression)) {
@@ -458,7 +519,7 @@ type GreaterThanOrEqual struct {
 }
 
 func (x *GreaterThanOrEqual) Evaluate(env envs.Environment, scope *Scope, warnings *Warnings) types.XValue {
-	return operators.GreaterThanOrEqual(env, x.Exp1.Evaluate(env, scope, warnings), x.Exp2.Evaluate(env, scope, warnings))
+	return warnings.binary(operators.GreaterThanOrEqual, env, scope, x.Exp1, x.Exp2)
 }
 
 func (x *GreaterThanOrEqual) Visit(v func(Expression)) {
